@@ -12,4 +12,64 @@ OPAQUE_LENGTH (Vec3, "V3", 3)
 OPAQUE_LENGTH (Vec4, "V4", 4)
 using namespace IMATH_INTERNAL_NAMESPACE;
 #include "ops_c15.h"
-int main (int argc, char** argv) { return symns::sym_main (argc, argv); }
+#include "c15_modes.h" // extra modes ratstep / leafinfo used by tools/props/c15.py; every other mode is sym_main's
+
+// `tvin`: C++-side translator validation on GIVEN inputs (stdin: "<Fn> v v v ..." per line, values read by strtod, hex floats allowed):
+// the extracted tree vs the real instantiation at double and (inputs rounded) at float, bit for bit, and the leaf of the tree that
+// each input reaches.  tools/props/c15.py feeds structured inputs (lattice triangles with lines aimed at edges / vertices / interior,
+// degenerate and parallel configurations, inputs that fire the overflow guards) and obliges that every reachable leaf is compared.
+struct TvinEntry { const char* name; void (*d) (symns::Ctx<double>&); void (*f) (symns::Ctx<float>&); };
+#define TVIN(ident, nm) {nm, &X_##ident::run<double>, &X_##ident::run<float>}
+static const TvinEntry tvinEntries[] = {TVIN (l_set, "Line3.set"), TVIN (l_cpl, "Line3.closestPointToLine"), TVIN (l_dl, "Line3.distanceToLine"),
+                                        TVIN (la_closestPoints, "LineAlgo.closestPoints"), TVIN (la_intersect, "LineAlgo.intersect"),
+                                        TVIN (la_rotatePoint, "LineAlgo.rotatePoint"), TVIN (p_set3, "Plane3.setPoints"), TVIN (p_intersectT, "Plane3.intersectT"),
+                                        TVIN (p_intersect, "Plane3.intersect"), TVIN (s_intersectT, "Sphere3.intersectT"), TVIN (s_intersect, "Sphere3.intersect"),
+                                        TVIN (la_closestVertex, "LineAlgo.closestVertex")};
+static int tvin (int argc, char** argv)
+{
+    using namespace symns;
+    for (int i = 1; i + 1 < argc; ++i)
+        if (std::string (argv[i]) == "--idx") loadIndex (argv[i + 1]);
+    std::map<std::string, FnRecord*> recs;
+    for (auto& e : entries ()) { FnRecord* r = explore (e); recs[r->name] = r; }
+    std::map<std::string, std::set<size_t>> hit;
+    std::map<std::string, long> n;
+    long bad = 0, evals = 0;
+    std::string line;
+    while (std::getline (std::cin, line))
+    {
+        std::istringstream is (line); std::string fn, t; is >> fn;
+        std::vector<double> in;
+        while (is >> t) in.push_back (strtod (t.c_str (), nullptr));
+        const TvinEntry* te = nullptr;
+        for (auto& e : tvinEntries) if (fn == e.name) te = &e;
+        if (!te || !recs.count (fn)) { printf ("TVINERR %s unknown\n", fn.c_str ()); ++bad; continue; }
+        FnRecord* r = recs[fn];
+        size_t nin = 0;
+        for (auto& p : r->params) nin += p.vars.size ();
+        if (in.size () != nin) { printf ("TVINERR %s arity need=%zu got=%zu\n", fn.c_str (), nin, in.size ()); ++bad; continue; }
+        std::vector<float> inf (in.begin (), in.end ());
+        std::string d; size_t leaf = (size_t) -1;
+        ++n[fn]; evals += 2;
+        if (!tvOne<double> (*r, te->d, in, d, &leaf)) { ++bad; printf ("TVFAIL double %s :: %s :: in=%s\n", fn.c_str (), d.c_str (), line.c_str ()); }
+        if (leaf != (size_t) -1) hit[fn].insert (leaf);
+        leaf = (size_t) -1;
+        if (!tvOne<float> (*r, te->f, inf, d, &leaf)) { ++bad; printf ("TVFAIL float %s :: %s :: in=%s\n", fn.c_str (), d.c_str (), line.c_str ()); }
+        if (leaf != (size_t) -1) hit[fn].insert (leaf);
+    }
+    for (auto& kv : hit)
+    {
+        printf ("TVINSUM %s inputs=%ld hit=%zu paths=%zu leaves=", kv.first.c_str (), n[kv.first], kv.second.size (), recs[kv.first]->paths.size ());
+        for (size_t l : kv.second) printf ("%zu,", l);
+        printf ("\n");
+    }
+    printf ("TVIN evaluations=%ld failures=%ld\n", evals, bad);
+    return bad ? 1 : 0;
+}
+
+int main (int argc, char** argv)
+{
+    if (argc > 1 && std::string (argv[1]) == "tvin") return tvin (argc, argv);
+    int rc = c15modes::extra_main (argc, argv);
+    return rc >= 0 ? rc : symns::sym_main (argc, argv);
+}
